@@ -283,7 +283,7 @@ ssize_t _whawty_write_data(int sock, const void* data, size_t len, int timeout)
 
         // don't get killed by SIGPIPE if whawty closed the connection
     ssize_t nwritten = send(sock, (void*)(data + offset), len - offset, MSG_NOSIGNAL);
-    if(nwritten < 0 || (nwritten == 0 && errno != EINTR)) {
+    if(nwritten <= 0) { // errno is only meaningful if send() failed, it must not be looked at otherwise
       return offset;
     }
     offset += nwritten;
@@ -369,7 +369,7 @@ ssize_t _whawty_read_data(int sock, const void* data, size_t len, int timeout)
     }
 
     ssize_t nread = read(sock, (void*)(data + offset), len - offset);
-    if(nread < 0 || (nread == 0 && errno != EINTR)) {
+    if(nread <= 0) { // 0 means the peer closed the connection; errno is only meaningful if read() failed
       return offset;
     }
     offset += nread;
